@@ -90,6 +90,19 @@ def run(chk):
                 chk.fail("accumulating blocks %s into an empty GMMStats with += differs from whole-set statistics" % (parts3,), dict(ctx, composition=list(parts3)))
             if [dump(t) for t in sts] != keep:
                 chk.fail("accumulating into an empty GMMStats with += changed the operands (blocks %s)" % (parts3,), dict(ctx, composition=list(parts3)))
+            # the same starting from `empty + first` (binary +) and continuing with += ; and `first + empty` continued with += :
+            # the running total is an object of its own, the operands stay what they were, the total is the whole-set statistics
+            for side in ("empty + s", "s + empty"):
+                sts2 = [m.acc_stats(b) for b in gen.split_rows(X, parts3)]
+                keep2 = [dump(t) for t in sts2]
+                run_ = (GMMStats(C, D) + sts2[0]) if side == "empty + s" else (sts2[0] + GMMStats(C, D))
+                for t in sts2[1:]:
+                    run_ += t
+                chk.count(1, key=("binary + with an empty operand, then +=", side))
+                if not stats_close(run_, whole):
+                    chk.fail("`%s` continued with += over blocks %s differs from whole-set statistics" % (side, parts3), dict(ctx, composition=list(parts3)))
+                if [dump(t) for t in sts2] != keep2:
+                    chk.fail("`%s` continued with += changed the first operand (the sum shares storage with it; blocks %s)" % (side, parts3), dict(ctx, composition=list(parts3)))
             # a container that was re-initialised (reset / init_fields / resize) accumulates like a fresh one
             for how in ("reset", "init_fields", "resize"):
                 accr = GMMStats(C, D) if how != "resize" else GMMStats(C + 1, D + 2)
